@@ -1,6 +1,556 @@
-//! C04 — not implemented yet.
-use crate::report::{Cfg, Report};
+//! C04 — element-wise arithmetic and maps are exact at every length and operand form; reductions
+//! stay within their rounding bound (DESIGN §3 C04).
+//!
+//! Events: every operator impl / map / reduction call (value or panic) on Vector and Matrix.
+//! Oracle: the same scalar `std` operation applied position by position, compared bit for bit;
+//! reductions against double-double references with a-priori γ_n bounds. The memory half of the
+//! property ("every output slot written") is decided by running this same workload under Miri and
+//! valgrind memcheck (`cfg.lite`): every element of every result is read here.
+use crate::gen::{distinct_vec, Rng};
+use crate::oracle::dd::{self, gamma_n, Dd};
+use crate::report::{guard, jf, jnum, par_cases, same_bits, same_bits_slice, Cfg, Hasher, Report};
+use compute::linalg::{dot, inf_norm, logmeanexp, logsumexp, matmatadd, matmatdiv, matmatmul, matmatsub, norm, prod, sum, Matrix, Vector};
+use serde_json::{json, Value};
+use std::hint::black_box;
 
-pub fn run(_cfg: &Cfg, rep: &mut Report) {
-    rep.inconclusive("monitor for C04 not implemented".to_string());
+fn sc(op: char, a: f64, b: f64) -> f64 {
+    match op {
+        '+' => a + b,
+        '-' => a - b,
+        '*' => a * b,
+        _ => a / b,
+    }
+}
+
+// ---------------------------------------------------------------------------------------------
+// operator tables (one entry per `impl`)
+
+type VV = (&'static str, char, fn(&Vector, &Vector) -> Vector);
+type VS = (&'static str, char, bool, fn(&Vector, f64) -> Vector); // bool = scalar on the left
+type VA = (&'static str, char, fn(&mut Vector, &Vector));
+type VAS = (&'static str, char, fn(&mut Vector, f64));
+type MM = (&'static str, char, fn(&Matrix, &Matrix) -> Matrix);
+type MS = (&'static str, char, bool, fn(&Matrix, f64) -> Matrix);
+type MA = (&'static str, char, fn(&mut Matrix, &Matrix));
+type MAS = (&'static str, char, fn(&mut Matrix, f64));
+
+macro_rules! bin_table {
+    ($t:ty) => {
+        [
+            ("owned+owned", '+', |a: &$t, b: &$t| a.clone() + b.clone()),
+            ("owned+ref", '+', |a: &$t, b: &$t| a.clone() + b),
+            ("ref+owned", '+', |a: &$t, b: &$t| a + b.clone()),
+            ("ref+ref", '+', |a: &$t, b: &$t| a + b),
+            ("owned-owned", '-', |a: &$t, b: &$t| a.clone() - b.clone()),
+            ("owned-ref", '-', |a: &$t, b: &$t| a.clone() - b),
+            ("ref-owned", '-', |a: &$t, b: &$t| a - b.clone()),
+            ("ref-ref", '-', |a: &$t, b: &$t| a - b),
+            ("owned*owned", '*', |a: &$t, b: &$t| a.clone() * b.clone()),
+            ("owned*ref", '*', |a: &$t, b: &$t| a.clone() * b),
+            ("ref*owned", '*', |a: &$t, b: &$t| a * b.clone()),
+            ("ref*ref", '*', |a: &$t, b: &$t| a * b),
+            ("owned/owned", '/', |a: &$t, b: &$t| a.clone() / b.clone()),
+            ("owned/ref", '/', |a: &$t, b: &$t| a.clone() / b),
+            ("ref/owned", '/', |a: &$t, b: &$t| a / b.clone()),
+            ("ref/ref", '/', |a: &$t, b: &$t| a / b),
+        ]
+    };
+}
+macro_rules! scalar_table {
+    ($t:ty) => {
+        [
+            ("owned+s", '+', false, |a: &$t, s: f64| a.clone() + s),
+            ("ref+s", '+', false, |a: &$t, s: f64| a + s),
+            ("s+owned", '+', true, |a: &$t, s: f64| s + a.clone()),
+            ("s+ref", '+', true, |a: &$t, s: f64| s + a),
+            ("owned-s", '-', false, |a: &$t, s: f64| a.clone() - s),
+            ("ref-s", '-', false, |a: &$t, s: f64| a - s),
+            ("s-owned", '-', true, |a: &$t, s: f64| s - a.clone()),
+            ("s-ref", '-', true, |a: &$t, s: f64| s - a),
+            ("owned*s", '*', false, |a: &$t, s: f64| a.clone() * s),
+            ("ref*s", '*', false, |a: &$t, s: f64| a * s),
+            ("s*owned", '*', true, |a: &$t, s: f64| s * a.clone()),
+            ("s*ref", '*', true, |a: &$t, s: f64| s * a),
+            ("owned/s", '/', false, |a: &$t, s: f64| a.clone() / s),
+            ("ref/s", '/', false, |a: &$t, s: f64| a / s),
+            ("s/owned", '/', true, |a: &$t, s: f64| s / a.clone()),
+            ("s/ref", '/', true, |a: &$t, s: f64| s / a),
+        ]
+    };
+}
+macro_rules! assign_table {
+    ($t:ty) => {
+        [
+            ("+=owned", '+', |a: &mut $t, b: &$t| *a += b.clone()),
+            ("+=ref", '+', |a: &mut $t, b: &$t| *a += b),
+            ("-=owned", '-', |a: &mut $t, b: &$t| *a -= b.clone()),
+            ("-=ref", '-', |a: &mut $t, b: &$t| *a -= b),
+            ("*=owned", '*', |a: &mut $t, b: &$t| *a *= b.clone()),
+            ("*=ref", '*', |a: &mut $t, b: &$t| *a *= b),
+            ("/=owned", '/', |a: &mut $t, b: &$t| *a /= b.clone()),
+            ("/=ref", '/', |a: &mut $t, b: &$t| *a /= b),
+        ]
+    };
+}
+macro_rules! assign_scalar_table {
+    ($t:ty) => {
+        [
+            ("+=s", '+', |a: &mut $t, s: f64| *a += s),
+            ("-=s", '-', |a: &mut $t, s: f64| *a -= s),
+            ("*=s", '*', |a: &mut $t, s: f64| *a *= s),
+            ("/=s", '/', |a: &mut $t, s: f64| *a /= s),
+        ]
+    };
+}
+
+static V_VV: [VV; 16] = bin_table!(Vector);
+static V_VS: [VS; 16] = scalar_table!(Vector);
+static V_VA: [VA; 8] = assign_table!(Vector);
+static V_VAS: [VAS; 4] = assign_scalar_table!(Vector);
+static M_MM: [MM; 16] = bin_table!(Matrix);
+static M_MS: [MS; 16] = scalar_table!(Matrix);
+static M_MA: [MA; 8] = assign_table!(Matrix);
+static M_MAS: [MAS; 4] = assign_scalar_table!(Matrix);
+static M_FN: [MM; 4] = [
+    ("matmatadd", '+', |a: &Matrix, b: &Matrix| matmatadd(a, b)),
+    ("matmatsub", '-', |a: &Matrix, b: &Matrix| matmatsub(a, b)),
+    ("matmatmul", '*', |a: &Matrix, b: &Matrix| matmatmul(a, b)),
+    ("matmatdiv", '/', |a: &Matrix, b: &Matrix| matmatdiv(a, b)),
+];
+
+type Map = (&'static str, fn(f64) -> f64, fn(&Vector) -> Vector, fn(&Matrix) -> Matrix);
+macro_rules! maps {
+    ($($m:ident),+) => { [ $( (stringify!($m), |x: f64| x.$m(), |v: &Vector| v.$m(), |m: &Matrix| m.$m()) ),+ ] };
+}
+static MAPS: [Map; 29] = maps!(
+    ln, ln_1p, log10, log2, exp, exp2, exp_m1, sin, cos, tan, sinh, cosh, tanh, asin, acos, atan, asinh, acosh, atanh, sqrt, cbrt, abs, floor,
+    ceil, to_radians, to_degrees, recip, round, signum
+);
+const POWI: [i32; 8] = [-2, -1, 0, 1, 2, 3, 4, 7];
+const POWF: [f64; 4] = [-1.5, 0.5, 2.0, 3.0];
+
+// ---------------------------------------------------------------------------------------------
+
+fn len_class(n: usize) -> &'static str {
+    if n == 0 {
+        "len=0"
+    } else if n % 8 == 0 {
+        "len%8=0"
+    } else if n < 8 {
+        "len<8"
+    } else {
+        "len%8!=0"
+    }
+}
+
+/// Split n into a matrix shape; n == 0 → None (the empty matrix).
+fn shape_for(rng: &mut Rng, n: usize) -> Option<(usize, usize)> {
+    if n == 0 {
+        return None;
+    }
+    let divs: Vec<usize> = (1..=n).filter(|d| n % d == 0).collect();
+    let r = *rng.choose(&divs);
+    Some((r, n / r))
+}
+fn mk_matrix(data: &[f64], shape: Option<(usize, usize)>) -> Matrix {
+    match shape {
+        None => Matrix::empty(),
+        Some((r, c)) => Matrix::new(data.to_vec(), r as i32, c as i32),
+    }
+}
+
+struct Ctx<'a> {
+    rep: &'a mut Report,
+    n: usize,
+    /// regime strings are formatted once per (container, family): formatting costs ms under Miri
+    cache: Vec<(&'static str, &'static str, String)>,
+}
+
+impl<'a> Ctx<'a> {
+    fn regime(&mut self, cont: &'static str, family: &'static str) -> String {
+        if let Some(e) = self.cache.iter().find(|e| e.0 == cont && e.1 == family) {
+            return e.2.clone();
+        }
+        let r = if cont == "Matrix" && self.n == 0 {
+            format!("{}:{}:empty", cont, family)
+        } else {
+            format!("{}:{}:{}", cont, family, len_class(self.n))
+        };
+        self.cache.push((cont, family, r.clone()));
+        r
+    }
+    /// Common verdict on one value-returning call.
+    fn value(&mut self, cont: &'static str, family: &'static str, impl_name: &str, got: Result<(Vec<f64>, Option<[usize; 2]>), String>, expect: &[f64], shape: Option<[usize; 2]>, inputs: impl Fn() -> Value) {
+        let regime = self.regime(cont, family);
+        self.rep.case(&regime);
+        self.rep.distinct(Hasher::new().s(cont).s(family).s(impl_name).u(self.n as u64).finish(), self.n >= 1);
+        match got {
+            Err(msg) => {
+                self.rep.check("C04.value.no_panic", &regime, false, || json!({"impl": format!("{} {}", cont, impl_name), "len": self.n, "panic": msg, "inputs": inputs()}));
+            }
+            Ok((data, gshape)) => {
+                self.rep.check("C04.value.no_panic", &regime, true, || json!(null));
+                self.rep.check("C04.value.length", &regime, data.len() == expect.len(), || {
+                    json!({"impl": format!("{} {}", cont, impl_name), "len": self.n, "got_len": data.len(), "inputs": inputs()})
+                });
+                if let (Some(s), Some(g)) = (shape, gshape) {
+                    self.rep.check("C04.value.shape", &regime, s == g, || json!({"impl": format!("{} {}", cont, impl_name), "expected_shape": s, "got_shape": g, "inputs": inputs()}));
+                }
+                if data.len() == expect.len() {
+                    let ok = same_bits_slice(&data, expect);
+                    self.rep.check("C04.value.bits", &regime, ok, || {
+                        let pos = data.iter().zip(expect).position(|(a, b)| !same_bits(*a, *b));
+                        json!({"impl": format!("{} {}", cont, impl_name), "len": self.n, "first_bad_index": pos, "observed": jf(&data), "expected": jf(expect), "inputs": inputs()})
+                    });
+                }
+            }
+        }
+    }
+    fn unchanged(&mut self, cont: &'static str, family: &'static str, impl_name: &str, now: &[f64], before: &[f64]) {
+        let regime = self.regime(cont, family);
+        self.rep.check("C04.operand_unchanged", &regime, same_bits_slice(now, before), || json!({"impl": format!("{} {}", cont, impl_name), "before": jf(before), "after": jf(now)}));
+    }
+    fn must_panic(&mut self, cont: &str, family: &str, impl_name: &str, got: Result<Vec<f64>, String>, what: Value) {
+        let regime = format!("{}:{}:mismatch", cont, family);
+        self.rep.case(&regime);
+        self.rep.check("C04.mismatch.panics", &regime, got.is_err(), || json!({"impl": format!("{} {}", cont, impl_name), "case": what, "returned": got.as_ref().ok().map(|d| jf(d))}));
+    }
+}
+
+fn elementwise(cfg: &Cfg, rng: &mut Rng, rep: &mut Report, n: usize, mismatch: bool) {
+    let a = distinct_vec(rng, n, true);
+    let b = distinct_vec(rng, n, true);
+    let s = if rng.chance(0.2) { *rng.choose(crate::gen::SPECIALS) } else { rng.range(-5.0, 5.0) };
+    let va = Vector::new(a.clone());
+    let vb = Vector::new(b.clone());
+    let shape = shape_for(rng, n);
+    let ma = mk_matrix(&a, shape);
+    let mb = mk_matrix(&b, shape);
+    let mshape = Some(shape.map(|(r, c)| [r, c]).unwrap_or([0, 0]));
+    let mut cx = Ctx { rep, n, cache: Vec::new() };
+    let inp2 = || json!({"a": jf(&a), "b": jf(&b), "matrix_shape": mshape});
+    let inp1 = || json!({"a": jf(&a), "scalar": jnum(s), "matrix_shape": mshape});
+
+    // --- Vector ∘ Vector, Matrix ∘ Matrix
+    for (name, op, f) in V_VV.iter() {
+        let exp: Vec<f64> = a.iter().zip(&b).map(|(x, y)| sc(*op, *x, *y)).collect();
+        let got = guard(|| f(&va, &vb)).map(|v| (v.v.clone(), None));
+        cx.value("Vector", "vv", name, got, &exp, None, inp2);
+        cx.unchanged("Vector", "vv", name, &va.v, &a);
+        cx.unchanged("Vector", "vv", name, &vb.v, &b);
+    }
+    for (tbl, fam) in [(&M_MM[..], "vv"), (&M_FN[..], "matfn")] {
+        for (name, op, f) in tbl.iter() {
+            let exp: Vec<f64> = a.iter().zip(&b).map(|(x, y)| sc(*op, *x, *y)).collect();
+            let got = guard(|| f(&ma, &mb)).map(|m| (m.data.v.clone(), Some([m.nrows, m.ncols])));
+            cx.value("Matrix", fam, name, got, &exp, mshape, inp2);
+            cx.unchanged("Matrix", fam, name, &ma.data.v, &a);
+            cx.unchanged("Matrix", fam, name, &mb.data.v, &b);
+        }
+    }
+    // --- scalar forms
+    for (name, op, left, f) in V_VS.iter() {
+        let exp: Vec<f64> = a.iter().map(|x| if *left { sc(*op, s, *x) } else { sc(*op, *x, s) }).collect();
+        let fam = if *left { "scalar-left" } else { "scalar-right" };
+        let got = guard(|| f(&va, s)).map(|v| (v.v.clone(), None));
+        cx.value("Vector", fam, name, got, &exp, None, inp1);
+        cx.unchanged("Vector", fam, name, &va.v, &a);
+    }
+    for (name, op, left, f) in M_MS.iter() {
+        let exp: Vec<f64> = a.iter().map(|x| if *left { sc(*op, s, *x) } else { sc(*op, *x, s) }).collect();
+        let fam = if *left { "scalar-left" } else { "scalar-right" };
+        let got = guard(|| f(&ma, s)).map(|m| (m.data.v.clone(), Some([m.nrows, m.ncols])));
+        cx.value("Matrix", fam, name, got, &exp, mshape, inp1);
+        cx.unchanged("Matrix", fam, name, &ma.data.v, &a);
+    }
+    // --- compound assignment
+    for (name, op, f) in V_VA.iter() {
+        let exp: Vec<f64> = a.iter().zip(&b).map(|(x, y)| sc(*op, *x, *y)).collect();
+        let mut t = va.clone();
+        let got = guard(|| {
+            f(&mut t, &vb);
+        })
+        .map(|_| (t.v.clone(), None));
+        cx.value("Vector", "assign", name, got, &exp, None, inp2);
+        cx.unchanged("Vector", "assign", name, &vb.v, &b);
+    }
+    for (name, op, f) in V_VAS.iter() {
+        let exp: Vec<f64> = a.iter().map(|x| sc(*op, *x, s)).collect();
+        let mut t = va.clone();
+        let got = guard(|| {
+            f(&mut t, s);
+        })
+        .map(|_| (t.v.clone(), None));
+        cx.value("Vector", "assign-scalar", name, got, &exp, None, inp1);
+    }
+    for (name, op, f) in M_MA.iter() {
+        let exp: Vec<f64> = a.iter().zip(&b).map(|(x, y)| sc(*op, *x, *y)).collect();
+        let mut t = ma.clone();
+        let got = guard(|| {
+            f(&mut t, &mb);
+        })
+        .map(|_| (t.data.v.clone(), Some([t.nrows, t.ncols])));
+        cx.value("Matrix", "assign", name, got, &exp, mshape, inp2);
+        cx.unchanged("Matrix", "assign", name, &mb.data.v, &b);
+    }
+    for (name, op, f) in M_MAS.iter() {
+        let exp: Vec<f64> = a.iter().map(|x| sc(*op, *x, s)).collect();
+        let mut t = ma.clone();
+        let got = guard(|| {
+            f(&mut t, s);
+        })
+        .map(|_| (t.data.v.clone(), Some([t.nrows, t.ncols])));
+        cx.value("Matrix", "assign-scalar", name, got, &exp, mshape, inp1);
+    }
+    // --- negation
+    {
+        let exp: Vec<f64> = a.iter().map(|x| -*x).collect();
+        let got = guard(|| -va.clone()).map(|v| (v.v.clone(), None));
+        cx.value("Vector", "neg", "neg", got, &exp, None, inp2);
+        let got = guard(|| -ma.clone()).map(|m| (m.data.v.clone(), Some([m.nrows, m.ncols])));
+        cx.value("Matrix", "neg", "neg", got, &exp, mshape, inp2);
+    }
+    // --- maps
+    for (name, sf, vf, mf) in MAPS.iter() {
+        let exp: Vec<f64> = a.iter().map(|x| sf(*x)).collect();
+        let got = guard(|| vf(&va)).map(|v| (v.v.clone(), None));
+        cx.value("Vector", "map", name, got, &exp, None, inp2);
+        cx.unchanged("Vector", "map", name, &va.v, &a);
+        let got = guard(|| mf(&ma)).map(|m| (m.data.v.clone(), Some([m.nrows, m.ncols])));
+        cx.value("Matrix", "map", name, got, &exp, mshape, inp2);
+        cx.unchanged("Matrix", "map", name, &ma.data.v, &a);
+    }
+    for &e in POWI.iter() {
+        let e = black_box(e);
+        // `powi` is not an IEEE operation; the runtime-exponent `f64::powi` is the scalar operation.
+        // x*x (e=2) and x*x*x (e=3) are bit-identical to it (repeated squaring) and are what the
+        // kernels use inside full chunks.
+        let exp: Vec<f64> = a.iter().map(|x| x.powi(e)).collect();
+        let name = format!("powi({})", e);
+        let got = guard(|| va.powi(e)).map(|v| (v.v.clone(), None));
+        cx.value("Vector", "powi", &name, got, &exp, None, inp2);
+        let got = guard(|| ma.powi(e)).map(|m| (m.data.v.clone(), Some([m.nrows, m.ncols])));
+        cx.value("Matrix", "powi", &name, got, &exp, mshape, inp2);
+    }
+    for &e in POWF.iter() {
+        let e = black_box(e);
+        let exp: Vec<f64> = a.iter().map(|x| x.powf(e)).collect();
+        let name = format!("powf({})", e);
+        let got = guard(|| va.powf(e)).map(|v| (v.v.clone(), None));
+        cx.value("Vector", "powf", &name, got, &exp, None, inp2);
+        let got = guard(|| ma.powf(e)).map(|m| (m.data.v.clone(), Some([m.nrows, m.ncols])));
+        cx.value("Matrix", "powf", &name, got, &exp, mshape, inp2);
+    }
+
+    // --- mismatched lengths / shapes must panic
+    if mismatch {
+        let k = if cfg.miri() { 2 } else { 16 };
+        let delta = if rng.bool() || n == 0 { 1 } else { n - rng.usize(0, n - 1) }; // other length n+1 or shorter
+        let other_len = if delta == 1 { n + 1 } else { n - delta.min(n) };
+        let vb2 = Vector::new(distinct_vec(rng, other_len, false));
+        for (name, _op, f) in V_VV.iter().take(k) {
+            let got = guard(|| f(&va, &vb2)).map(|v| v.v.clone());
+            cx.must_panic("Vector", "vv", name, got, json!({"left_len": n, "right_len": other_len}));
+        }
+        for (name, _op, f) in V_VA.iter().take(k) {
+            let mut t = va.clone();
+            let got = guard(|| {
+                f(&mut t, &vb2);
+            })
+            .map(|_| t.v.clone());
+            cx.must_panic("Vector", "assign", name, got, json!({"left_len": n, "right_len": other_len}));
+        }
+        // matrices: same element count, different shape, both dimensions > 1 on each side (so that
+        // NumPy broadcasting — C12 — does not apply); and assignment with any differing shape.
+        if let Some((r, c)) = shape {
+            if r != c && r > 1 && c > 1 {
+                let mb2 = Matrix::new(b.clone(), c as i32, r as i32);
+                for (tbl, fam) in [(&M_MM[..], "vv"), (&M_FN[..], "matfn")] {
+                    for (name, _op, f) in tbl.iter().take(k) {
+                        let got = guard(|| f(&ma, &mb2)).map(|m| m.data.v.clone());
+                        cx.must_panic("Matrix", fam, name, got, json!({"left_shape": [r, c], "right_shape": [c, r]}));
+                    }
+                }
+            }
+            if r != c {
+                let mb2 = Matrix::new(b.clone(), c as i32, r as i32);
+                for (name, _op, f) in M_MA.iter().take(k) {
+                    let mut t = ma.clone();
+                    let got = guard(|| {
+                        f(&mut t, &mb2);
+                    })
+                    .map(|_| t.data.v.clone());
+                    cx.must_panic("Matrix", "assign", name, got, json!({"left_shape": [r, c], "right_shape": [c, r]}));
+                }
+            }
+        }
+    }
+    cx.rep.sample(|| json!({"len": n, "matrix_shape": mshape, "a": jf(&a[..a.len().min(6)]), "b": jf(&b[..b.len().min(6)]), "scalar": jnum(s), "impls_exercised": 16*4 + 12*2 + 4 + 2 + 29*2 + 16 + 8}));
+}
+
+// ---------------------------------------------------------------------------------------------
+// reductions
+
+fn reductions(cfg: &Cfg, rng: &mut Rng, rep: &mut Report, n: usize) {
+    let class = len_class(n);
+    let kind = rng.usize(0, 3);
+    let (x, kname): (Vec<f64>, &str) = match kind {
+        0 => (rng.vec(n, -10.0, 10.0), "uniform"),
+        1 => ((0..n).map(|_| rng.normal() * 10f64.powi(rng.int(-6, 6) as i32)).collect(), "wide-scale"),
+        2 => (rng.ints(n, -1000, 1000), "integer"),
+        _ => (rng.vec(n, 0.5, 2.0), "positive"),
+    };
+    let y: Vec<f64> = rng.vec(n, -3.0, 3.0);
+    let regime = format!("reduce:{}:{}", kname, class);
+    rep.case(&regime);
+    rep.distinct(Hasher::new().s("reduce").fs(&x).finish(), n >= 2);
+    let tiny = f64::MIN_POSITIVE;
+    let inputs = || json!({"x": jf(&x), "y": jf(&y)});
+    let v = Vector::new(x.clone());
+
+    // sum (free fn, Vector method, Matrix method)
+    let sref = dd::sum(&x);
+    let sabs = dd::sum_abs(&x).f();
+    let sbound = gamma_n(n.max(1)) * sabs + tiny;
+    let one = |rep: &mut Report, id: &str, got: Result<f64, String>, reference: Dd, bound: f64, extra: &str| match got {
+        Err(m) => {
+            rep.check(id, &regime, false, || json!({"panic": m, "form": extra, "inputs": inputs()}));
+        }
+        Ok(g) => {
+            let err = (Dd::new(g) - reference).f().abs();
+            let ok = err <= bound || (g.is_nan() && reference.f().is_nan());
+            if bound > 0.0 && err.is_finite() {
+                rep.note_max(&format!("worst_ratio.{}", id), err / bound);
+            }
+            rep.check(id, &regime, ok, || json!({"form": extra, "observed": jnum(g), "reference": jnum(reference.f()), "abs_err": jnum(err), "bound": jnum(bound), "inputs": inputs()}));
+        }
+    };
+    one(rep, "C04.sum", guard(|| sum(&x)), sref, sbound, "sum(&[f64])");
+    one(rep, "C04.sum", guard(|| v.sum()), sref, sbound, "Vector::sum");
+    if n > 0 {
+        let m = Matrix::new(x.clone(), 1, n as i32);
+        one(rep, "C04.sum", guard(|| m.sum()), sref, sbound, "Matrix::sum");
+    }
+    // dot
+    let dref = dd::dot(&x, &y);
+    let dbound = gamma_n(n.max(1) + 1) * dd::dot_abs(&x, &y) * (1.0 + 1e-9) + tiny;
+    one(rep, "C04.dot", guard(|| dot(&x, &y)), dref, dbound, "dot(&[f64],&[f64])");
+    // dot with mismatched lengths must panic
+    if n > 0 && rng.chance(0.1) {
+        let r = guard(|| dot(&x, &y[..n - 1]));
+        rep.check("C04.mismatch.panics", "reduce:dot:mismatch", r.is_err(), || json!({"returned": r.as_ref().ok(), "inputs": inputs()}));
+    }
+    // prod (well-scaled positive data only: relative bound)
+    if kname == "positive" || kname == "integer" && n <= 8 {
+        let mut p = Dd::ONE;
+        for &t in &x {
+            p = p * Dd::new(t);
+        }
+        if p.is_finite() && (p.f() == 0.0 || p.f().abs() > 1e-290) {
+            let pb = gamma_n(n.max(1)) * p.f().abs() + tiny;
+            one(rep, "C04.prod", guard(|| prod(&x)), p, pb, "prod(&[f64])");
+            one(rep, "C04.prod", guard(|| v.prod()), p, pb, "Vector::prod");
+        }
+    }
+    // norm
+    let n2 = dd::dot(&x, &x).sqrt();
+    let nb = (gamma_n(n.max(1) + 1) * 0.5 + 2.0 * dd::U) * n2.f() * (1.0 + 1e-9) + tiny;
+    one(rep, "C04.norm", guard(|| norm(&x)), n2, nb, "norm(&[f64])");
+    one(rep, "C04.norm", guard(|| v.norm()), n2, nb, "Vector::norm");
+    // infinity norm of a matrix shape
+    if let Some((r, c)) = shape_for(rng, n) {
+        let mut best = Dd::ZERO;
+        for i in 0..r {
+            best = best.max(dd::sum_abs(&x[i * c..(i + 1) * c]));
+        }
+        let ib = gamma_n(c) * best.f() + tiny;
+        one(rep, "C04.inf_norm", guard(|| inf_norm(&x, r)), best, ib, "inf_norm(&[f64], nrows)");
+        let m = Matrix::new(x.clone(), r as i32, c as i32);
+        one(rep, "C04.inf_norm", guard(|| m.inf_norm()), best, ib, "Matrix::inf_norm");
+    }
+    // log-sum-exp / log-mean-exp with large-magnitude log-domain inputs
+    if n > 0 {
+        let scale = *rng.choose(&[1.0, 50.0, 800.0, 1e4]);
+        let lx: Vec<f64> = (0..n).map(|_| rng.range(-1.0, 1.0) * scale).collect();
+        let m = lx.iter().cloned().fold(f64::NEG_INFINITY, f64::max);
+        let mut s = Dd::ZERO;
+        for &t in &lx {
+            s = s + Dd::new((t - m).exp());
+        }
+        let lse = m + s.f().ln();
+        let lme = m + (s.f() / n as f64).ln();
+        let lregime = format!("reduce:logdomain:scale={}", scale);
+        rep.case(&lregime);
+        for (id, form, got, reference) in [
+            ("C04.logsumexp", "logsumexp(&[f64])", guard(|| logsumexp(&lx)), lse),
+            ("C04.logsumexp", "Vector::logsumexp", guard(|| Vector::new(lx.clone()).logsumexp()), lse),
+            ("C04.logmeanexp", "logmeanexp(&[f64])", guard(|| logmeanexp(&lx)), lme),
+            ("C04.logmeanexp", "Vector::logmeanexp", guard(|| Vector::new(lx.clone()).logmeanexp()), lme),
+        ] {
+            match got {
+                Err(msg) => {
+                    rep.check(id, &lregime, false, || json!({"form": form, "panic": msg, "x": jf(&lx)}));
+                }
+                Ok(g) => {
+                    let bound = 4.0 * (n as f64 + 4.0) * f64::EPSILON * (1.0 + reference.abs());
+                    let err = (g - reference).abs();
+                    if err.is_finite() {
+                        rep.note_max(&format!("worst_ratio.{}", id), err / bound);
+                    }
+                    rep.check(id, &lregime, g.is_finite() && err <= bound, || json!({"form": form, "observed": jnum(g), "reference": jnum(reference), "bound": jnum(bound), "x": jf(&lx)}));
+                }
+            }
+        }
+    }
+    let _ = cfg;
+}
+
+pub fn run(cfg: &Cfg, rep: &mut Report) {
+    rep.rule = "every operator impl (4 ops x {Vector,Matrix} x {owned,borrowed}^2 vec∘vec, scalar-left/right, compound assignment, Neg, matmat* fns), 29 maps, powi (8 exponents), powf (4) at every length 0..=40 (lite: 0..=17,24,33) and random lengths up to 1e4, elements pairwise distinct with ±0, ±inf, subnormals, NaN mixed in; reductions against double-double references. non-trivial = length >= 1; distinct by (container, family, impl, length)".into();
+    rep.assume("powi has no IEEE definition: the runtime-exponent f64::powi (compiler-rt repeated squaring) is taken as the scalar operation; x*x and x*x*x are bit-identical to it");
+    rep.assume("prod is checked on well-scaled data (no overflow/underflow) with a relative gamma_n bound; reductions of the empty slice other than sum/prod/dot/norm are outside the quantifier");
+    rep.assume("Matrix shape mismatches are checked for pairs that NumPy broadcasting (C12) does not make compatible");
+    // exhaustive lengths
+    // Miri: 0..=17 covers every residue of the length mod 8 with 0, 1 and 2 full chunks (one
+    // evaluation costs ~50-90 ms there); memcheck/ASan: native sizes.
+    let mut lengths: Vec<usize> = if cfg.miri() { (0..=17).collect() } else { (0..=40).collect() };
+    if cfg.lite && !cfg.miri() {
+        lengths.extend([64, 65, 127, 200, 300]);
+    }
+    let reps = cfg.pick(3, 12, 1).max(1);
+    let lens = lengths.clone();
+    par_cases(cfg, rep, 1, lens.len() * reps, |i, rng, rep| {
+        let n = lens[i % lens.len()];
+        elementwise(cfg, rng, rep, n, true);
+    });
+    rep.exhaustive = Some(false);
+    // random larger lengths
+    let nrand = cfg.pick(40, 400, 0);
+    par_cases(cfg, rep, 2, nrand, |_i, rng, rep| {
+        let n = if rng.chance(0.7) { rng.usize(41, 600) } else { rng.usize(601, 10_000) };
+        let mm = rng.chance(0.3);
+        elementwise(cfg, rng, rep, n, mm);
+    });
+    // reductions: every length 0..=40 + random
+    let rl = lengths.len();
+    let rreps = cfg.pick(20, 200, 1);
+    par_cases(cfg, rep, 3, rl * rreps, |i, rng, rep| {
+        reductions(cfg, rng, rep, lengths[i % rl]);
+    });
+    let nr = cfg.pick(300, 6000, 0);
+    par_cases(cfg, rep, 4, nr, |_i, rng, rep| {
+        let n = rng.usize(41, 10_000);
+        reductions(cfg, rng, rep, n);
+    });
+    for cont in ["Vector", "Matrix"] {
+        for fam in ["vv", "scalar-left", "scalar-right", "assign", "assign-scalar", "neg", "map", "powi", "powf"] {
+            for cl in ["len<8", "len%8=0", "len%8!=0"] {
+                rep.require(&format!("{}:{}:{}", cont, fam, cl), 1);
+            }
+        }
+        rep.require(&format!("{}:vv:mismatch", cont), 1);
+        rep.require(&format!("{}:assign:mismatch", cont), 1);
+    }
+    rep.require("Vector:vv:len=0", 1);
+    rep.require("Matrix:vv:empty", 1);
 }
